@@ -265,8 +265,18 @@ class LocalStorageBackend(StorageBackend):
         )
 
         try:
-            # Write content to temp file
-            os.write(fd, content)
+            # Write content to temp file. os.write() may store fewer bytes than
+            # asked for and report that count (the volume filling up while the
+            # request is in progress): keep writing until all of it is in - a
+            # short count ignored here would be fsynced, renamed and published
+            # as a truncated file.
+            remaining = memoryview(content)
+            written = os.write(fd, remaining)
+            while written < len(remaining):
+                if written <= 0:
+                    raise OSError(f"short write to {temp_path}: no progress")
+                remaining = remaining[written:]
+                written = os.write(fd, remaining)
 
             # Ensure data is written to disk (durability guarantee)
             os.fsync(fd)
